@@ -87,6 +87,8 @@ def gen(rng, tier, index):
     cfg = {"flavour": flavour, "rt": rt, "mode": mode, "plan": plan, "lat": lat, "version": rng.choice(["1.4", "2.0", "2.2"]), "sched": sched}
     if stop_save_fault:
         cfg["stop_save_fault"] = stop_save_fault
+    if mode == "watchdog_ok" and rng.random() < 0.5:
+        cfg["gw_traffic"] = rng.choice([[0], [0, 7], [7]])
     return {"cfg": cfg, "ops": events}
 
 
@@ -287,6 +289,16 @@ def run(case):
                 else:
                     world.advance(2.6 * rt + 1.0)
             elif cfg["mode"] == "watchdog_ok":
+                if cfg.get("gw_traffic"):
+                    # the gateway device is a node itself (id 0): it presents itself and a local sensor and, on 2.x, announces
+                    # smart sleep like any node; so does an ordinary node - none of which is the watchdog's business
+                    wake = {"2.0": "3;0;22;1", "2.2": "3;0;32;500"}.get(cfg["version"])
+                    world.advance(0.2)
+                    for nid in cfg["gw_traffic"]:
+                        world.feed(f"{nid};255;0;0;18;2.2.0\n{nid};1;0;0;6;local\n{nid};1;1;0;0;21.5\n")
+                        if wake:
+                            world.feed(f"{nid};255;{wake}\n")
+                    probes["gateway_node_traffic"] = 1
                 world.advance(20 * rt)
             else:
                 world.advance((len(cfg["lat"]) + 4.5) * (rt + 0.2) + 1.0)
